@@ -16,6 +16,8 @@
     leaves_in_order leaves_in_order_supported leavesS_in_order leavesS_in_order_supported
     leaves_in_order_after_rewriting leaves_need_domain
     writer_is_lines code_is_rendered_lines indentation_read_back try_blank_line_example
+    unsupported_stmt_rejected py312_rejected py312_supported
+    char_lines_match_token_lines indentation_matches_token_lines
 -/
 import Genshi.Lemmas.PyParseS5
 import Genshi.Lemmas.PyStmtSpec
@@ -23,6 +25,8 @@ import Genshi.Lemmas.PyStmtUnxf
 import Genshi.Lemmas.PyStmtWF
 import Genshi.Lemmas.PyLeavesWF
 import Genshi.Lemmas.PyLayout
+import Genshi.Lemmas.PyGenOkS
+import Genshi.Lemmas.PyLayoutLines
 namespace Genshi.Props.C13
 open Genshi.Py Genshi.Gen
 
@@ -530,5 +534,85 @@ example : ((genBodyC 0 exModule).filter (fun l => !l.blank)).map (·.indent) = (
 example : ∃ code, codeS exModule = some code ∧
     retok code = some (((genBodyC 0 exModule).filter (fun l => !l.blank)).map fun l => (l.indent, l.text)) :=
   indentation_read_back exModule (by decide +kernel) (by decide +kernel) (by decide +kernel)
+
+/-! ### constructs of the running Python (3.12) the generator may meet -/
+
+/-- **Unsupported statements are rejected, not altered**: a statement class without a `visit_*`
+    method, an augmented assignment with an operator missing from the table, a relative import
+    without module name, or a rejected expression *anywhere* in a module body (at any nesting depth)
+    makes the generator raise — it never writes different lines for such a body. -/
+theorem unsupported_stmt_rejected (ss : List PyStmt) (h : rejectsB ss = true) : genModule ss = none := by
+  have : genOkBody ss = false := by
+    cases hg : genOkBody ss with
+    | false => rfl
+    | true => simp [genOkB_not_rejectsB ss hg] at h
+  simp [genModule, this]
+
+/-- The audit of the Python 3.12 syntax against the visitor set and the operator tables of the code
+    under test (regenerated on every run): assignment expressions, f-strings (`JoinedStr`,
+    `FormattedValue`; 3.14 `TemplateStr`), `await`, set displays / set and dict comprehensions,
+    `yield from`, `@`; `match`, `type X = …`, `except*`, `async def` / `async for` / `async with`,
+    annotated assignment, `nonlocal` have no visitor / no table entry — trees containing them are
+    rejected (`unsupported_rejected`, `unsupported_stmt_rejected` apply).  A visitor added to the
+    code under test for one of them breaks this theorem: the model then has to model it. -/
+theorem py312_rejected :
+    (∀ k ∈ [cs!"NamedExpr", cs!"JoinedStr", cs!"FormattedValue", cs!"TemplateStr", cs!"Interpolation", cs!"Await", cs!"Set",
+        cs!"SetComp", cs!"DictComp", cs!"YieldFrom"], rejects (.unsupported k) = true)
+    ∧ (∀ k ∈ [cs!"Match", cs!"TypeAlias", cs!"TryStar", cs!"AsyncFunctionDef", cs!"AsyncFor", cs!"AsyncWith", cs!"AnnAssign",
+        cs!"Nonlocal"], rejectsS (.unsupported k) = true)
+    ∧ rejects (.binOp (.name ['a']) cs!"MatMult" (.name ['b'])) = true
+    ∧ rejectsS (.augAssign (.name ['a']) cs!"MatMult" (.name ['b'])) = true
+    ∧ rejectsS (.importFrom none [(['x'], none)] 2) = true := by decide
+
+/-- `a[*b, c]`, `return *a, b` (star expressions in an index / `return` / `yield`: a `Tuple` with `Starred` elements,
+    written `a[(*b, c, )]`), positional-only parameters with defaults, and `async` comprehension clauses
+    are inside the supported syntax: regenerated and read back exactly. -/
+def exStarIndex : PyExpr := .subscript (.name ['a']) (.tuple [.starred (.name ['b']), .name ['c']])
+def exStarReturn : List PyStmt :=
+  [.functionDef ['f'] [.param ['p'] none (some two)] [] none [.param ['k'] none none] none
+    [.return_ (some (.tuple [.starred (.name ['a']), .name ['b']])),
+     .expr (.yield_ (some (.tuple [.name ['b'], .starred (.name ['a'])])))] [] none false]
+def exAsyncComp : PyExpr := .genExp (.name ['x']) [.comp (.name ['x']) (.name ['y']) [] true]
+
+theorem py312_supported :
+    pyParse (gen exStarIndex) = some exStarIndex ∧ pyParse (gen exAsyncComp) = some exAsyncComp
+    ∧ pyParseS (genBody 0 exStarReturn) = some exStarReturn
+    ∧ codeS exStarReturn = some cs!"def f(p=2, /, *, k):\n    return (*a, b, )\n    (yield (b, *a, ))\n" :=
+  ⟨rfl, rfl, rfl, by decide +kernel⟩
+
+/-- `a[*b]` in *original* source (PEP 646): a lone starred item is read as a one-element tuple, as CPython does
+    (found by the audit: the reader returned `Subscript(a, Starred(b))`; corrected in `trailersF`) -/
+example : pyParse [.name ['a'], tLB, tStar, .name ['b'], tRB] = some (.subscript (.name ['a']) (.tuple [.starred (.name ['b'])])) := rfl
+
+example : Supported exStarIndex := by
+  refine ⟨?_, rfl⟩
+  simp only [exStarIndex, WF, WFL]
+  exact ⟨by decide, rfl, ⟨⟨⟨by decide, rfl⟩, by decide, trivial⟩, rfl⟩, Or.inl rfl⟩
+example : Supported exAsyncComp := by
+  refine ⟨?_, rfl⟩
+  simp only [exAsyncComp, WF, WFL]
+  exact ⟨by decide, rfl, ⟨⟨by decide, rfl, by decide, rfl, trivial, rfl⟩, trivial⟩, by simp, rfl⟩
+example : genModule [.if_ (.name ['c']) [.unsupported cs!"Match"] []] = none := unsupported_stmt_rejected _ (by decide)
+
+/-! ### the character model and the token model agree on the line structure -/
+
+/-- the non-blank physical lines of the character model have the indentation sequence of the token-level
+    lines `genBody` (the abstraction `parseS_genS` is stated on) — for every body in which no expression
+    statement / assignment writes an empty text (`textOKB`, decidable) -/
+theorem char_lines_match_token_lines (ss : List PyStmt) (ind : Nat) (h : textOKB ss = true) :
+    (nbLines (genBodyC ind ss)).map (·.indent) = (genBody ind ss).map (·.indent) :=
+  indents_body ss ind h
+
+/-- hence: the depths CPython's line structure assigns to the generated string are the indentation
+    levels of the token-level lines, one logical line per `Line` -/
+theorem indentation_matches_token_lines (body : List PyStmt) (hok : genOkBody body = true) (hne : genBodyC 0 body ≠ [])
+    (hl : (genBodyC 0 body).all lineOKb = true) (ht : textOKB body = true) :
+    ∃ code ls, codeS body = some code ∧ retok code = some ls ∧ ls.map (·.1) = (genBody 0 body).map (·.indent) := by
+  obtain ⟨code, hc, hr⟩ := indentation_read_back body hok hne hl
+  refine ⟨code, _, hc, hr, ?_⟩
+  rw [← char_lines_match_token_lines body 0 ht]
+  simp [nbLines, List.map_map, Function.comp_def]
+
+example : textOKB exModule = true := by decide +kernel
 
 end Genshi.Props.C13
